@@ -193,6 +193,10 @@ func RunCrash(plan *Plan, thorough bool) *RunResult {
 			if oracle == "" {
 				continue
 			}
+			if forgedInImage(w, di, img) {
+				w.probe("crash-image-with-coincidental-forged-root-skipped")
+				continue
+			}
 			// report in operation form: history up to the interrupted
 			// operation, crash, open, audit
 			cut := len(w.Trace)
@@ -377,4 +381,23 @@ func NewGenOnWorld(seed uint64, w *World, p *Profile, nOps int) *Gen {
 		_ = cc
 	}
 	return g
+}
+
+// forgedInImage: the image holds a complete self-consistent root record
+// that no Flush of the history wrote at that place (an adversarial value
+// or junk tail that became one by coincidence of offsets): excluded by
+// the property.
+func forgedInImage(w *World, di int, img []byte) bool {
+	known := map[int64]bool{}
+	for _, tl := range w.Files[di].Timeline {
+		for _, fl := range tl.Stack {
+			known[fl.End] = true
+		}
+	}
+	for _, r := range AllRoots(img) {
+		if !known[r.End] {
+			return true
+		}
+	}
+	return false
 }
